@@ -391,6 +391,15 @@ pub fn generate(rng: &mut Rng, allow_tasks: bool) -> Workload {
             error_prefix = Some(prefix.to_string());
         }
     }
+    if final_top.is_some() && rng.chance(1, 3) {
+        // declarations after the final expression statement do not change what the result is
+        match rng.below(3) {
+            0 => src.push_str("fn tail_helper(x: int) -> int {\n    x + 1\n}\n"),
+            1 => src.push_str("type TailRec = {\n    t: int\n}\n"),
+            _ => src.push_str("fn tail_helper(x: int) -> int {\n    x + 1\n}\ntype TailRec = {\n    t: int\n}\nfn tail_other(r: TailRec) -> int {\n    tail_helper(r.t)\n}\n"),
+        }
+        descr.push("declarations-after-final-expression".into());
+    }
     let mut w = Workload::new("status", descr.join(" "), src);
     w.has_tasks = with_tasks;
     w.projection = if with_tasks { Projection::MainOnly } else { Projection::AllThreads };
